@@ -81,8 +81,26 @@ def check_buffer(n):
     return None, ev
 
 
-# "list": distinct but unhashable elements (the functions only need ==)
-ALPHABETS = {"int": lambda i: i, "str": lambda i: f"g{i}", "rev": lambda i: 100 - i, "list": lambda i: [i, "x"]}
+class Opaque:
+    """elements told apart by == only: every instance prints the same, has the same hash and no ordering"""
+
+    def __init__(self, key):
+        self.key = key
+
+    def __eq__(self, other):
+        return isinstance(other, Opaque) and other.key == self.key
+
+    def __hash__(self):
+        return 7
+
+    def __repr__(self):
+        return "g"
+
+
+# "list": distinct but unhashable elements (the functions only need ==); "lookalike": 0, "0", 1, "1", ... (distinct under ==,
+# pairwise equal under str); "opaque": equal text and hash, distinct under ==
+ALPHABETS = {"int": lambda i: i, "str": lambda i: f"g{i}", "rev": lambda i: 100 - i, "list": lambda i: [i, "x"],
+             "lookalike": lambda i: (i // 2 if i % 2 == 0 else str(i // 2)), "opaque": Opaque}
 
 
 def run_shard(shard, tier, seed):
